@@ -59,7 +59,7 @@ theorem sess_put (c : Cfg) (hdec0 : c.dec [0] = some .empty) {s : St} {t : Trie}
     rw [tInsert_eq]
     cases t with
     | nil => simp [Trie.insert]
-    | leaf pk lv => exact insertInLeaf_ne_nil pk lv _ _
+    | leaf pk lv => simp only [Trie.insert]; exact (insertInLeaf_ne_nil pk lv _ _).1
     | branch pk bv cs =>
       intro e
       have := lookup_insert (branch pk bv cs) (toNibs k) v (toNibs k)
@@ -126,9 +126,11 @@ theorem sess_commit (c : Cfg) {s : St} {t : Trie} (h : Sess c s t) :
     | nil => exact absurd rfl ht
     | leaf pk v =>
       simp only [ofTrie] at hr henc
-      exact ⟨_, by simp only [commit, hr, Hd.cached, henc], rfl⟩
+      refine ⟨_, by simp only [commit, hr, Hd.cached, henc]; rfl, ?_⟩
+      rfl
     | branch pk v cs =>
       simp only [ofTrie] at hr henc
-      exact ⟨_, by simp only [commit, hr, Hd.cached, henc], rfl⟩
+      refine ⟨_, by simp only [commit, hr, Hd.cached, henc]; rfl, ?_⟩
+      rfl
 
 end Gossamer.C06
